@@ -346,10 +346,12 @@ class Compiler:
             "set_where": None
         }
 
-        code = self.compile_file(file, link_base["promise"], link_base)
-
-        if not link_base["promise"].settled:
-            link_base["promise"].settle(addr)
+        try:
+            code = self.compile_file(file, link_base["promise"], link_base)
+        finally:
+            # Even if compilation of the included file was aborted by an error, its symbols must have addresses
+            if not link_base["promise"].settled:
+                link_base["promise"].settle(addr)
 
         return code
 
